@@ -486,6 +486,33 @@ func (pc *provCtx) walkRecv(ch ssa.Value, field string, out originSet, depth int
 			}
 		})
 	}
+	// the channel handed to a library function (called or spawned): the sends on that parameter
+	for _, f := range withClosures(top) {
+		eachInstr(f, func(in ssa.Instruction) {
+			ci, ok := in.(ssa.CallInstruction)
+			if !ok {
+				return
+			}
+			g := ci.Common().StaticCallee()
+			if g == nil || !m.isLib(g) || g.Blocks == nil {
+				return
+			}
+			for i, a := range ci.Common().Args {
+				if i >= len(g.Params) || m.Sym.Of(a).String() != want {
+					continue
+				}
+				p := g.Params[i]
+				for _, h := range withClosures(g) {
+					eachInstr(h, func(x ssa.Instruction) {
+						if s, ok := x.(*ssa.Send); ok && m.traceValue(s.Chan) == ssa.Value(p) || ok && s.Chan == ssa.Value(p) {
+							found = true
+							pc.enter(g, ci.Common().Args, func() { pc.walk(s.X, field, out, depth+1) })
+						}
+					})
+				}
+			}
+		})
+	}
 	if !found {
 		out["unknown:recv "+clip(want, 60)] = true
 	}
